@@ -1779,3 +1779,19 @@ def install(register):
         except Exception as ex:      # noqa: BLE001 — an unforeseen input is a rejection of the source, never a crash
             raise Unsupported(f'reasoning: internal {type(ex).__name__}: {ex}')
     register('reasoning', 'Reasoning.lean')(guarded)
+
+    def nested(repo):
+        """the same definitions, word for word, read against the vocabulary for graphs whose nodes may be wrappers
+        (`Model/ReasoningPrimN.lean`, namespace `NestedGraph`: the same names — `CG`, `Node`, `contains`, `getNode`, `outEdges`,
+        `lastIndexR`, `nodeCount`, `nd.fn.apply`, `nd.isSingleton`, `nd.verifyAll` — with `is_singleton` / `verify_all_causes`
+        answering per node) -> Gen/ReasoningN.lean (C02: the graph level of the nested model)"""
+        text = guarded(repo)
+        for old, new in (('import DcVerif.Model.ReasoningPrim\n', 'import DcVerif.Model.ReasoningPrimN\n'),
+                         ('namespace Gen.Reasoning\n', 'namespace Gen.ReasoningN\n'),
+                         ('open CausalGraph\n', 'open NestedGraph\n'),
+                         ('end Gen.Reasoning\n', 'end Gen.ReasoningN\n')):
+            if text.count(old) != 1:
+                raise Unsupported('reasoningN: header line `' + old.strip() + '` not found exactly once')
+            text = text.replace(old, new)
+        return text.replace('GENERATED by /verif/tools/rs2lean.py reasoning', 'GENERATED by /verif/tools/rs2lean.py reasoningN')
+    register('reasoningN', 'ReasoningN.lean')(nested)
